@@ -320,6 +320,10 @@ def run(program, ctx):
 
     # the tag keys re-derived from the stored record (tuples, not lists) for deletion are the keys that were written
     c01.rule_tagindex(program, ctx, prop=P, rid="C10.tagindex")
+    from . import c04 as _c04
+
+    # index entries are deleted with keys re-derived from the *stored record*: the record must hold the event's fields exactly as they were indexed
+    _c04.rule_kvcodec(program, ctx, prop=P, rid="C10.kvcodec")
     # one region / no swallowing handler: same constructs as C07.kvregion
     ridr = ctx.rule("C10.region", "all index mutations of one task inside one write transaction, no handler inside it swallows a failed write (see C07.kvregion)", floor=1)
     run_fn = program.func("nostr_relay.storage.kv:WriterThread.run")
